@@ -44,7 +44,23 @@ func H_C12_no_shared_writes() {
 		refCat([]byte{0x55, 0x00}, refInt(1), []byte{'Z'}),                            // variable-length list, empty type name
 		refCat([]byte{'H'}, refStr("a"), refInt(1), []byte{'Z'}),
 	}
-	switch vChoice("call", 13) {
+	switch vChoice("call", 14) {
+	case 13:
+		// two callers use the same pooled instance one after the other: the second gets what it gets alone
+		in := &ZInner{N: 8, S: "r"}
+		ringA, errA := ToBytes(&ZPair{N: 1, A: in, B: in, L: []*ZInner{in}}, nmCopy)
+		other := &ZInner{N: 9, S: "o"}
+		ringB, errB := ToBytes(&ZPair{N: 2, A: other, B: other, L: []*ZInner{other, other}}, nmCopy)
+		vAssume(errA == nil && errB == nil)
+		tmp, _ := vExtractAll(&ZPair{})
+		p := NewDecoderPool(1, tmp)
+		d1 := p.Get().(*Decoder)
+		d1.Decode(ringA)
+		p.Return(d1)
+		d2 := p.Get().(*Decoder)
+		o, err := d2.Decode(ringB)
+		g, ok := o.(*ZPair)
+		vAssert("second-caller-alone-result", err == nil && ok && g.A != nil && g.A == g.B && g.A.N == 9 && len(g.L) == 2 && g.L[0] == g.A && g.L[1] == g.A)
 	case 12:
 		f := foreign[vChoice("foreign", len(foreign))]
 		NewDecoder(nil, tm).Decode(f)
